@@ -193,7 +193,9 @@ def long_piece_cases(chk, rnd):
     import common
     from common import pb, u, da
     n_cases = 0
-    for rate in ((1, u.kHz), (1, u.MHz), (2, u.GHz), (0.5, u.Hz)):
+    # (3 Hz, 7 Hz, 3 mHz: the sample period is not representable, so n/rate and n*(1/rate) differ by an ulp, which
+    # after days of signal is more than the contiguity tolerance)
+    for rate in ((1, u.kHz), (1, u.MHz), (2, u.GHz), (0.5, u.Hz), (3, u.Hz), (7, u.Hz), (3, u.mHz), (0.3, u.kHz)):
         for n1, n2 in ((200000, 7), (3000001, 1000), (12345678, 2)):
             for shift in (0, 1, -1, 3, -2):
                 ep = common.EPOCHS[0]
